@@ -331,8 +331,11 @@ def cases(ctx):
         run_n = [150000] + ([2000000] if t else [])
         if kind == "bytes":
             units = [bytes([x]) for x in (0x00, 0x01, 0x02, 0x30, 0x41, 0x43, 0x4B, 0x4C, 0x4D, 0x4E, 0x51, 0x67, 0x68, 0x6A, 0x80, 0x81, 0xAB, 0xC1, 0xC3, 0xFD, 0xFE, 0xFF)] + [b"\x30\x00", b"\x02\x01", b"\x00\x41"]
+            # flat runs of CLOSED conditionals (each branch reader must cost what it reads, not what is left of the script)
+            units += [b"\x63\x67\x68", b"\x51\x63\x52\x67\x53\x68", b"\x64\x67\x67\x68", b"\x63\x68"]
         else:
             units = ["41", "30", "00", "ff", "c1", "01", "OP_1 ", "0 ", " ", "\n", "\t", "/0", "/0'", "1", "z", "=", "\\", "\"", ","]
+            units += ["OP_IF OP_ELSE OP_ENDIF ", "OP_1 OP_IF OP_2 OP_ELSE OP_3 OP_ENDIF ", "6367 68", "636768"]
         for ui, u in enumerate(units):
             k += 1
             if k % N != S and not t:
